@@ -31,6 +31,8 @@ type LoadConfig struct {
 	GOARCH string
 }
 
+type packagesPackage = packages.Package
+
 func (c LoadConfig) String() string {
 	goos, arch := c.GOOS, c.GOARCH
 	if goos == "" {
